@@ -422,6 +422,7 @@ pub fn gen(tier: &str, rng: &mut Rng, out: &mut Vec<String>) {
                     for x in seqs.iter().filter(|s| !s.is_empty()) {
                         let calls: Vec<String> = seqs
                             .iter()
+                            .filter(|y| !y.is_empty()) // empty sequences: known finding, corpus only
                             .map(|y| {
                                 rot += 1;
                                 format!("{},{},{}", entries[rot % entries.len()], hex(x), hex(y))
